@@ -189,7 +189,7 @@ def lex_k(ck, harness, model, jobs, limit=2):
     return impl, mod, bad
 
 # ---------------------------------------------------------------- the full pipeline model (pump, includes)
-def run_full(harness, model, cases, syms=False):
+def run_full(harness, model, cases, syms=False, mopts=None):
     """cases: list of dict(arch, files {abs path: str|bytes}, cwd, root, paths [abs]).
     Returns (impl [AsmResult], model [raw line or 'LEXERR'/'NEEDLEX'], impl case lines)."""
     opts = "syms" if syms else ""
@@ -230,7 +230,7 @@ def run_full(harness, model, cases, syms=False):
             lextab.setdefault(ci, []).append((h, l))
     mlines, skip = [], []
     for ci, c in enumerate(cases):
-        fields = ["mfull", c["arch"], c.get("cwd", "/w"), c.get("root", "main.asm"), "|".join(c.get("paths", ())), opts]
+        fields = ["mfull", c["arch"], c.get("cwd", "/w"), c.get("root", "main.asm"), "|".join(c.get("paths", ())), mopts if mopts is not None else opts]
         lt = lextab.get(ci, [])
         fields.append(str(len(lt)))
         for h, l in lt:
